@@ -375,11 +375,14 @@ def run_gen(sc, prefer=None, xcheck=None, wall_cap=60, keep_sets=True):
         a, b = sc['rng']
         random.seed(a)
         numpy.random.seed(b)
-        gargv = list(sc['gargv']) + ['-o', outdir]
+        import scenarios
+        base_argv = list(sc['gargv']) if sc.get('gargv') is not None \
+            else scenarios.gen_argv(sc['params'])
+        gargv = base_argv + ['-o', outdir]
         if sc.get('drop_o'):
-            gargv = list(sc['gargv'])
+            gargv = list(base_argv)
         world.spy_start(d, _spy_sink(tr, log))
-        log('api.call', ('Generator', list(sc['gargv'])))
+        log('api.call', ('Generator', list(base_argv)))
         err = io.StringIO()
         with _Alarm(wall_cap, tr):
             try:
@@ -438,6 +441,9 @@ def run_gen(sc, prefer=None, xcheck=None, wall_cap=60, keep_sets=True):
                                       'exc': {'type': 'RunTimeout',
                                               'site': None, 'msg': '',
                                               'code': None, 'tb': ''}})
+            tr.rounds.extend(sub.rounds)
+            for k, v in sub.fired.items():
+                tr.fired[k] = tr.fired.get(k, 0) + v
     finally:
         for modp in patched:
             modp.create_string_pref = real_csp
